@@ -792,15 +792,16 @@ Section MachineProofs.
     simpl in Hm. rewrite Hm in D. apply smem_In in Ht. congruence.
   Qed.
 
-  Lemma protected_user : forall t k,
+  Lemma protected_user : forall t k, In t var_tables ->
     ~ In (t, Some k) (soft cfg ++ writer_writes cfg) -> protected (t, k).
   Proof.
-    intros t k Hn. unfold protected, pats_match.
+    intros t k Hv Hn. unfold protected, pats_match.
     destruct (existsb _ _) eqn:E; auto. exfalso.
     apply existsb_exists in E as [[pt pk] [Hp Hm]]. pose proof (ok_derived cfg Hok _ Hp) as D.
-    unfold derived_pat in D. apply andb_true_iff in D as [_ D]. simpl in D.
+    unfold derived_pat in D. apply andb_true_iff in D as [_ D]. cbn [fst snd] in D.
     unfold pat_match in Hm. simpl in Hm. apply andb_true_iff in Hm as [Hm1 Hm2].
-    apply String.eqb_eq in Hm1. subst pt. destruct pk as [k'|]; [|discriminate].
-    apply String.eqb_eq in Hm2. subst k'. auto.
+    apply String.eqb_eq in Hm1. subst pt. destruct pk as [k'|].
+    - apply String.eqb_eq in Hm2. subst k'. auto.
+    - apply negb_true_iff in D. apply smem_In in Hv. congruence.
   Qed.
 End MachineProofs.
